@@ -25,7 +25,13 @@ def final_model(sc):
     for patch, res in sc.patch_log:
         by_patch.setdefault(id(patch), []).append(res)
     for mi, md in enumerate(sc.spec.get("mods", [])):
-        bid = md["blk"]
+        bid = md.get("blk")
+        if md["op"] == "insert_function":
+            results = by_patch.get(id(sc.mod_patches[mi]), [])
+            eng.check(len(results) == 1, "patch of the inserted function was assembled %d times" % len(results))
+            items = L.patch_items(md["patch"], md.get("uid", mi), results[0].text_section.data, None, None, sc.spec.get("isa", "x64"))
+            ls.append_function(".text", md["name"], items)
+            continue
         func = ls.block_func.get(bid) if ls.block_code[bid] else None
         if md["op"] in ("insert", "replace"):
             if md["patch"] == "rawbytes":
@@ -222,6 +228,16 @@ def check_functions(sc, ls):
     uuid_name = {}
     for fname, u in sc.func_uuids.items():
         uuid_name[u] = fname
+    inserted = [md["name"] for md in sc.spec.get("mods", []) if md and md["op"] == "insert_function"]
+    for name in inserted:
+        sym = sc.symbols[name]
+        us = [u for u, s in fn.items() if s is sym]
+        eng.check(len(us) == 1, "C06 inserted function %s has %d functionNames entries naming its symbol" % (name, len(us)))
+        u = us[0]
+        uuid_name[u] = "new:" + name
+        eng.check(u in fb and u in fe, "C06 inserted function %s is missing from functionBlocks/functionEntries" % name)
+        eng.check(isinstance(sym.referent, gtirb.CodeBlock) and fe[u] == {sym.referent},
+                  "C06 inserted function %s: its entries are %d blocks, expected exactly the block its symbol names" % (name, len(fe[u])))
     for sect in sc.sections:
         items, _ = ls.positions(sect.name)
         ranges = [(b, s, e) for (b, s, e) in block_ranges(sc, bases, code_only=False) if b.section is sect]
@@ -324,9 +340,13 @@ def crash_pattern(spec):
     for d in mods:
         if d["op"] == "delete" and d["at"] == 0 and d["to"] == natoms[d["blk"]]:
             for i in mods:
-                if i["op"] in ("insert", "replace") and i["blk"] == d["blk"] and i["at"] == natoms[d["blk"]]:
+                if i["op"] in ("insert", "replace") and i.get("blk") == d["blk"] and i["at"] == natoms[d["blk"]]:
                     return True
     return False
+
+
+def has_function_insertion(spec):
+    return any(md and md["op"] == "insert_function" for md in spec.get("mods", []))
 
 
 def known_crash(spec, ex):
@@ -732,6 +752,8 @@ def make_check_C05(tier):
     chk = make_rewrite_check("C05", tier, ["C05"])
     for sid, spec in rewrite_shapes.shapes(tier):
         if crash_pattern(spec):
+            continue
+        if has_function_insertion(spec):
             continue
         npatch = sum(1 for md in spec["mods"] if md["op"] in ("insert", "replace") and md["patch"] != "rawbytes")
         for k in range(1, npatch + 1):
@@ -1233,7 +1255,7 @@ def make_check_C09(tier):
     chk.install_shims = install
     chk.classify_exception = classify
     for sid, spec in rewrite_shapes.shapes(tier) + rewrite_shapes.cfi_shapes(tier):
-        if crash_pattern(spec) or not spec.get("mods"):
+        if crash_pattern(spec) or not spec.get("mods") or has_function_insertion(spec):
             continue
         if tier == "quick" and len(spec["mods"]) < 2 and not (sid.startswith("text/jcc") or sid.startswith("callgraph")):
             continue
@@ -1324,7 +1346,7 @@ def make_check_C11(tier):
         spec["mods"] = _c.deepcopy(mods)
         extra.append(("text/jcc:s0/%s" % rewrite_shapes.mods_name(mods), spec))
     for sid, spec in rewrite_shapes.shapes(tier) + rewrite_shapes.cfi_shapes(tier) + extra:
-        if crash_pattern(spec) or len(spec.get("mods", [])) < 2:
+        if crash_pattern(spec) or len(spec.get("mods", [])) < 2 or has_function_insertion(spec):
             continue
         for perm in legal_permutations(spec["mods"]):
             chk.add("%s/perm%s" % (sid, "".join(map(str, perm))), h_reorder, params=dict(spec=spec, perm=perm), timeout=900)
